@@ -3,6 +3,6 @@
 # that are no longer detected.  usage: tools/seed_regress.sh [parallelism]
 P=${1:-5}
 cd /verif
-for suffix in "" "_2" "_3" "_4"; do
+for suffix in ${SUFFIXES:-"" "_2" "_3" "_4" "_5" "_6" "_7" "_8"}; do
   ls -d seeded/C??$suffix 2>/dev/null | xargs -P $P -I{} bash -c 'd={}; id=$(basename $d); pid=${id:0:3}; out=$(tools/seedtest.sh $pid $d/patch.diff 2>&1); cp .work/seedtest_$pid.log .work/seedtest_$id.final.log; if grep -q "^VIOLATION" .work/seedtest_$id.final.log; then echo "$id detected"; else echo "$id NOT DETECTED"; fi'
 done | sort
